@@ -55,7 +55,7 @@ def run(ctx):
                 'distinct by content; non-trivial when the tree has at least two operators')
     ctx.assumptions += [
         'the judged language is the STRICT one: a text is judged only when the POSIX table alone determines its tree; forms '
-        'that awks accept through yacc shift preferences (2 ^ -x, $-1, a !b, a ++b, a ? b : c = d, !x = y, 1 && x = 1, $$i++, '
+        'that awks accept through yacc shift preferences ($-1, a !b, a ++b, a ? b : c = d, !x = y, 1 && x = 1, $$i++, '
         'a < b | getline, x = "c" | getline, unparenthesised relational operators and getline in a print argument (also inside '
         'a subscript there: print B[a > b]), '
         'getline < non-primary) are never generated unparenthesised',
@@ -86,6 +86,10 @@ def run(ctx):
         ctx.tlc('Gen_Grammar', sim, capture='cases.ndjson', simulate=12000, depth=30, workers=4, timeout=900)
         ctx.cov['exhaustive'] = True
         mincases = 300000
+    # a unary operator directly after ^ * / % + -: outside the strict parser's language, but the table (unary binds looser than ^,
+    # tighter than * / % + -) still prescribes the tree; Gen_GrammarExtra checks each prescribed tree with the spec's parser
+    gx = ctx.cfg('Gen_GrammarExtra', constants={'Ctxs': '{"stmt", "print", "pat", "cond"}'})
+    ctx.tlc('Gen_GrammarExtra', gx, capture='cases.ndjson', timeout=600)
     ctx.replay('cases.ndjson', label='gen-grammar', min_cases=mincases, corrupt=corrupt)
     # 3. code -> spec: expressions of the corpus as parsed and printed by the real code, validated by the spec's parser
     trace_direction(ctx, 'C04')
